@@ -908,7 +908,9 @@ class APIClient:
                 BluetoothGATTNotifyResponse,
                 timeout,
             )
-        except Exception:
+        except (Exception, asyncio.CancelledError):
+            # Also when the caller cancels: it never gets the functions
+            # that would let it remove the notify callback itself
             remove_callback()
             raise
 
